@@ -20,9 +20,12 @@ Obs == SubSeq(In, 2, Len(In))
 \* o.dead = the files whose worker process died (measured: the last event of the worker's log is marked `dies');
 \* with a fault that names one file this is that file, a fault matching every worker kills several at the same step
 Dead(o) == ToSet(o.dead)
-RefKeysNotOf(D) == {Ref.ref[i].key : i \in {j \in DOMAIN Ref.ref : Ref.ref[j].file \notin D /\ Ref.ref[j].id # "checkersReport"}}
+\* "every finding of the other files": findings located in a file whose worker did not die. Reports without a file
+\* ("nofile": e.g. the whole-program stage saying that it cannot load the cache file the dead worker left behind) are
+\* not findings of another file and are not judged.
+RefKeysNotOf(D) == {Ref.ref[i].key : i \in {j \in DOMAIN Ref.ref : Ref.ref[j].file \notin (D \cup {"nofile"}) /\ Ref.ref[j].id # "checkersReport"}}
 KeysNotOf(o, D) == {o.findings[i].key : i \in {j \in DOMAIN o.findings :
-                       o.findings[j].file \notin D /\ o.findings[j].id \notin {"checkersReport", "cppcheckError"}}}
+                       o.findings[j].file \notin (D \cup {"nofile"}) /\ o.findings[j].id \notin {"checkersReport", "cppcheckError"}}}
 
 \* the four obligations of the statement
 Terminates(o)    == ~o.timeout
